@@ -5,7 +5,7 @@ from ..world import world_from, World
 from . import resolve_common as R
 
 CLAIM = dict(
-    text="Coq theorem on the MultiTypeMap state machine (Model/Cache.v: the dict with continuation entries keyed by caller code, self.errors, self.all; getitem = hit or __missing__ incl. the leading-code-object path and resolve()'s write loop): for every method list and every finite sequence of dictionary accesses (plain and continuation keys, any order, repeats, failing and ambiguous ones), interleaved with registrations of further handlers (distinct code objects), each access returns exactly what a brand-new table over the handlers registered so far returns (C04_history_free), by an invariant stating that every stored entry, remembered error and candidate set is the one a fresh resolution produces and that a stored first-rank entry comes with all its continuation entries. Tie to /repo: (a) random access histories on a real MultiTypeMap vs the extracted state machine, step by step; (b) random call histories on a long-lived @ovld function whose methods delegate with call_next, each call compared (result and sequence of bodies entered) with the same call on a freshly built function (the property oracle) and with the model's chain.",
+    text="Coq theorem on the MultiTypeMap state machine (Model/Cache.v: the dict with continuation entries keyed by caller code, self.errors, self.all; getitem = hit or __missing__ incl. the leading-code-object path and resolve()'s write loop): for every method list and every finite sequence of dictionary accesses (plain and continuation keys, any order, repeats, failing and ambiguous ones), interleaved with registrations of further handlers (distinct code objects), each access returns exactly what a brand-new table over the handlers registered so far returns (C04_history_free), by an invariant stating that every stored entry, remembered error and candidate set is the one a fresh resolution produces and that a stored first-rank entry comes with all its continuation entries. Tie to /repo: (a) random access histories on a real MultiTypeMap vs the extracted state machine, step by step; (b) random call histories on a long-lived @ovld function whose methods delegate with call_next, each call compared (result and sequence of bodies entered) with the same call on a freshly built function (the property oracle) and with the model's chain; (c) functions with value-dependent methods that take an optional positional and an optional keyword-only parameter, called in all four shapes in random order, each call against a function built for that call only (the per-rank dispatchers generated per shape are outside the table model: property oracle alone).",
     note="Trusted: as C02. The state machine treats resolve() as atomic (interruption inside it is C18/C19's subject) and models the static view of ranks; per-position TypeMap caches are not modelled separately (their content is a function of the registered types, which do not change in C04's histories).",
     technique="Coq proof (cache invariant by induction over the access sequence) + differential correspondence on histories", design="6 C04")
 
@@ -130,9 +130,62 @@ def check_table_history(ctx, prog, stats):
     stats["table_histories"] += 1
 
 
+def gen_dep_shapes_program(rng):
+    """value-dependent methods with an optional positional and an optional keyword-only parameter, so that one function
+    is called in several shapes -- (v), (v, x), (v, k0=..), (v, x, k0=..) -- selecting the same methods: per-rank
+    dispatchers are generated per call shape and type combination"""
+    from . import dep_common as D
+    from ..world import enc_val
+    pool = rng.choice([[1, 2, 3, 7], ["a", "ab", "b", "zz"]])
+    cls = D.INT if isinstance(pool[0], int) else D.STR
+    utab = {"10": [enc_val(v) for v in pool if rng.random() < 0.5]}
+    k = rng.randint(1, 5)
+    defs = []
+    for i in range(k):
+        r = rng.random()
+        t = [8, [0, cls], enc_val(pool[i % len(pool)])] if r < 0.7 else [9, 10, [0, cls]]
+        optpos = rng.random() < 0.7
+        optkw = rng.random() < 0.7
+        defs.append({"id": i, "pos": [t] + ([[0, 0]] if optpos else []), "npos_req": 1, "kw": [[0, [0, 0], False]] if optkw else [], "prio": 0,
+                     "body": rng.choice(["ret", "ret", "next"])})
+    defs.append({"id": 20, "pos": [[0, rng.choice([0, cls])], [0, 0]], "npos_req": 1, "kw": [[0, [0, 0], False]], "prio": 0, "body": "ret"})
+    if rng.random() < 0.5:
+        defs.append({"id": 21, "pos": [[0, 0], [0, 0]], "npos_req": 1, "kw": [[0, [0, 0], False]], "prio": -1, "body": "ret"})
+    calls = []
+    for _ in range(rng.randint(8, 20)):
+        v = rng.choice(pool + [rng.choice([5, "q"])])
+        shape = rng.randrange(4)
+        c = {"vals": [enc_val(v)] + ([enc_val(rng.choice([1, "x"]))] if shape & 1 else [])}
+        if shape & 2:
+            c["kwvals"] = {"0": enc_val(rng.choice([1, "y"]))}
+        calls.append(c)
+    return {"spec": [], "defs": defs, "utab": utab, "calls": calls, "dep_shapes": True}
+
+
+def check_dep_shapes_history(ctx, prog, stats):
+    """property oracle alone: every call of the history on the long-lived function = the same call on a function built
+    for that call only"""
+    from . import dep_common as D
+    from ..world import dec_val
+    w = world_from(prog["spec"])
+    long_lived = progs.Built(w, prog["defs"], utab=prog["utab"])
+    for n, call in enumerate(prog["calls"]):
+        vs = [dec_val(e, w) for e in call["vals"]]
+        kw = {f"k{k}": dec_val(e, w) for k, e in call.get("kwvals", {}).items()}
+        got = long_lived.call(vs, kw)
+        fresh = progs.Built(world_from(prog["spec"]), prog["defs"], utab=prog["utab"])
+        exp = fresh.call(vs, kw)
+        stats["evaluations"] += 1
+        stats["dep_shape_calls"] += 1
+        if got != exp:
+            ctx.violation(f"call #{n} of the history gives {got} on the long-lived function and {exp} on a freshly built one",
+                          dict(prog, calls=prog["calls"][: n + 1]))
+            return
+
+
 def run(ctx):
     stats = {"evaluations": 0, "nontrivial": set(), "hist": collections.Counter(), "table_hist": collections.Counter(),
-             "table_histories": 0, "function_histories": 0, "normalizer_repeats": 0}
+             "table_histories": 0, "function_histories": 0, "normalizer_repeats": 0, "dep_shape_calls": 0}
     samples = []
     check_normalizer_history(ctx, stats)
     n = 40 if ctx.quick() else 1500
@@ -143,13 +196,14 @@ def run(ctx):
         check_function_history(ctx, prog, stats)
         stats["function_histories"] += 1
         check_table_history(ctx, prog, stats)
+        check_dep_shapes_history(ctx, gen_dep_shapes_program(ctx.rng), stats)
         if len(samples) < 2:
             samples.append({"defs": prog["defs"], "history": prog["history"][:6]})
         if len(ctx.violations) > 5:
             break
     return {"evaluations": stats["evaluations"], "distinct_nontrivial": len(stats["nontrivial"]),
             "rule": "random programs (as C02, no keywords) with half of the methods delegating through call_next; histories of 8-30 calls with repetitions incl. failing and ambiguous calls on one long-lived function, each compared with a freshly built function; plus 6-25 random accesses (plain and continuation keys) per program on a real MultiTypeMap; a history prefix is non-trivial from its second call on",
-            "samples": samples, "function_histories": stats["function_histories"], "table_histories": stats["table_histories"],
+            "samples": samples, "calls_in_several_shapes_on_value_dependent_functions_vs_fresh": stats["dep_shape_calls"], "function_histories": stats["function_histories"], "table_histories": stats["table_histories"],
             "call_outcomes": dict(stats["hist"]), "table_outcomes": dict(stats["table_hist"]),
             "traces_validated_against_impl": stats["evaluations"]}
 
@@ -195,6 +249,11 @@ def check_normalizer_history(ctx, stats):
 
 
 def replay(ctx, payload):
+    if payload["case"].get("dep_shapes"):
+        st = {"evaluations": 0, "dep_shape_calls": 0}
+        before = len(ctx.violations)
+        check_dep_shapes_history(ctx, payload["case"], st)
+        return len(ctx.violations) > before
     case = payload["case"]
     w = world_from(case["spec"])
     if "history" in case:
